@@ -438,9 +438,10 @@ func TestVerifC07KeepstoreSigned(t *testing.T) {
 
 		// ---- a valid signature for a block that is not stored: never data
 		{
-			nb := c07kExpand(rapid.Uint64().Draw(t, "absentSeed"), 40)
+			// (prefix keeps it distinct from every block PUT by an earlier case)
+			nb := append([]byte("never-stored:"), c07kExpand(rapid.Uint64().Draw(t, "absentSeed"), 40)...)
 			nh := ref.MD5Hex(nb)
-			loc := nh + "+40+A" + ref.BlobSignature([]byte(key), nh, token, expHex, ttlHex) + "@" + expHex
+			loc := nh + fmt.Sprintf("+%d+A", len(nb)) + ref.BlobSignature([]byte(key), nh, token, expHex, ttlHex) + "@" + expHex
 			nreq++
 			if r := env.direct("GET", loc, scheme, token, nil); r.Status < 400 {
 				t.Fatalf("GET of a block that was never stored -> %d\n%s", r.Status, ctxt())
@@ -452,7 +453,7 @@ func TestVerifC07KeepstoreSigned(t *testing.T) {
 		if ttl >= 300 {
 			var pb []byte
 			if rapid.Bool().Draw(t, "putNew") {
-				pb = c07kExpand(rapid.Uint64().Draw(t, "putSeed"), rapid.IntRange(0, 200).Draw(t, "putLen"))
+				pb = append([]byte("put:"), c07kExpand(rapid.Uint64().Draw(t, "putSeed"), rapid.IntRange(0, 200).Draw(t, "putLen"))...)
 				putLabel = "put-new-block"
 				newBlocks++
 			} else {
